@@ -195,7 +195,13 @@ def _random_job(k):
                   bp=rng.normal(0, 3, (1, ny, 3)), w=rng.uniform(0.5, 3, ny - 1), ch=rng.uniform(0.5, 3, ny), F=rng.normal(0, 1e3, (1, ny - 1, 3)))
         data.append(su)
         inp.update({n + "_S_ref": su["S"], n + "_CL": su["CL"], n + "_CD": su["CD"], n + "_structural_mass": su["m"], n + "_cg_location": su["cg"], n + "_b_pts": su["bp"], n + "_widths": su["w"], n + "_chords": su["ch"], n + "_sec_forces": su["F"]})
-    out = run_comp(TotalPerformance(surfaces=dicts, user_specified_Sref=user, internally_connect_fuelburn=True), inp, None)
+    # the multipoint set-up: the fuel burn seen by lift-equals-weight and by the cg is connected by the USER (another point's value)
+    icf = k % 3 != 2
+    fb_user = float(rng.uniform(0.05, 0.6)) * inp["W0"]
+    if not icf:
+        inp["L_equals_W.fuelburn"] = fb_user
+        inp["CG.fuelburn"] = fb_user
+    out = run_comp(TotalPerformance(surfaces=dicts, user_specified_Sref=user, internally_connect_fuelburn=icf), inp, None)
     g = lambda key: [v for kk, v in out.items() if kk.split(".")[-1] == key][0]
     bad = []
     q = 0.5 * inp["rho"] * inp["v"] ** 2
@@ -204,7 +210,7 @@ def _random_job(k):
     CD = sum(s["CD"] * s["S"] for s in data) / S
     ms = sum(s["m"] for s in data)
     fb = (inp["W0"] + ms) * (np.exp(inp["R"] * inp["CT"] / inp["speed_of_sound"] / inp["Mach_number"] * CD / CL) - 1)
-    W = (inp["W0"] + ms + fb) * G * inp["load_factor"]
+    W = (inp["W0"] + ms + (fb if icf else fb_user)) * G * inp["load_factor"]
     cg = (inp["W0"] * inp["empty_cg"] + sum(s["m"] * s["cg"] for s in data)) / (inp["W0"] + ms)
     M = np.zeros(3)
     for d, s in zip(dicts, data):
@@ -218,7 +224,7 @@ def _random_job(k):
     for name, val, refv, fl in (("CL", g("CL"), CL, 1e-3), ("CD", g("CD"), CD, 1e-3), ("fuelburn", g("fuelburn"), fb, 1.0), ("L_equals_W", g("L_equals_W"), 1 - q * S * CL / W, 1e-3), ("cg", g("cg"), cg, 1e-2), ("CM", g("CM"), M / (q * S * mac), 1e-4)):
         if not _close(val, refv, 1e-11, fl):
             bad.append("random:%s" % name)
-    return {"k": k, "bad": bad, "case": {"nsurf": ns, "user_sref": user}}
+    return {"k": k, "bad": bad, "case": {"nsurf": ns, "user_sref": user, "internally_connect_fuelburn": icf}}
 
 
 def _units_job(k):
